@@ -78,16 +78,26 @@ func observer(b *broker.Broker, filter string) (*wire.Client, error) {
 func (x *cx) auth() error {
 	c := x.c
 	enhanced := c.Verdict == "enhanced_reject"
+	// Variant 2/3: the hook hands out one error value for every rejection, as a plugin with a package-level
+	// error variable does, and a v3.1.1 client is rejected first
+	shared := c.Variant >= 2
+	sharedErr := mkErr(c.Code)
+	verdict := func() error {
+		if shared {
+			return sharedErr
+		}
+		return mkErr(c.Code)
+	}
 	hooks := server.Hooks{
 		OnBasicAuth: func(ctx context.Context, cl server.Client, req *server.ConnectRequest) error {
-			if string(req.Connect.ClientID) == "victim" {
-				return mkErr(c.Code)
+			if id := string(req.Connect.ClientID); id == "victim" || id == "victim-v3" {
+				return verdict()
 			}
 			return nil
 		},
 		OnEnhancedAuth: func(ctx context.Context, cl server.Client, req *server.ConnectRequest) (*server.EnhancedAuthResponse, error) {
 			if string(req.Connect.ClientID) == "victim" {
-				return nil, mkErr(c.Code)
+				return nil, verdict()
 			}
 			return &server.EnhancedAuthResponse{}, nil
 		},
@@ -102,6 +112,14 @@ func (x *cx) auth() error {
 		return err
 	}
 	defer obs.Close()
+	if shared {
+		if c3, err := wire.Dial("victim-v3", b.Addr, mqttx.V311); err == nil {
+			_, _ = c3.Connect(&mqttx.Packet{ClientID: "victim-v3", CleanStart: true}, step)
+			c3.WaitEOF(2 * time.Second)
+			c3.Close()
+			x.obs["shared_error_value_rejections"]++
+		}
+	}
 	cl, err := wire.Dial("victim", b.Addr, mqttx.Version(c.V))
 	if err != nil {
 		return err
@@ -492,7 +510,10 @@ func allCases() []Case {
 	var cs []Case
 	for _, v := range []byte{3, 4, 5} {
 		for _, code := range []byte{0, 0x86, 0x87, 0x80, 0x8c} {
-			for variant := 0; variant < 2; variant++ {
+			for variant := 0; variant < 4; variant++ {
+				if variant >= 2 && v != 5 {
+					continue
+				}
 				cs = append(cs, Case{Kind: "auth", V: v, Verdict: "basic_reject", Code: code, Variant: variant})
 			}
 			if v == 5 {
@@ -534,7 +555,7 @@ func RunEnforcement(r *monitor.Run) {
 		seen := map[string]int{}
 		var keep []Case
 		for _, c := range cs {
-			k := fmt.Sprintf("%s|%s|%d", c.Kind, c.Verdict, c.V)
+			k := fmt.Sprintf("%s|%s|%d|%v", c.Kind, c.Verdict, c.V, c.Kind == "auth" && c.Variant >= 2 && c.Code > 0x80 && c.Code != 0x87)
 			if seen[k] < 3 {
 				keep = append(keep, c)
 			}
